@@ -1,5 +1,6 @@
 import Anndb.Proofs.HnswInsertOnly
 import Anndb.Proofs.HnswSound
+import Anndb.Proofs.SortSpec
 /-!
 # Exact search on small insert-only collections (C07)
 
@@ -142,7 +143,9 @@ theorem searchCore_exact (hio : IO cfg s) (k : Nat) (hcover : s.next ≤ max cfg
     r.length = min k s.next ∧
     (∀ v, v < s.next →
       (∃ h ∈ r, h.id = s.idOf v ∧ h.score = dist q (s.vecOf v)) ∨
-      (∀ h ∈ r, h.score ≤ dist q (s.vecOf v))) := by
+      (∀ h ∈ r, h.score ≤ dist q (s.vecOf v))) ∧
+    (∃ rest, ((List.range s.next).map (fun v => dist q (s.vecOf v))).Perm (r.map (·.score) ++ rest) ∧
+      ∀ y ∈ r.map (·.score), ∀ x ∈ rest, y ≤ x) := by
   intro r
   cases hent : s.entry with
   | none =>
@@ -152,7 +155,7 @@ theorem searchCore_exact (hio : IO cfg s) (k : Nat) (hcover : s.next ≤ max cfg
       · omega
     have hr : r = [] := by simp [r, searchCore, hent]
     rw [hr, hn0]
-    exact ⟨by simp, fun v hv => absurd hv (Nat.not_lt_zero _)⟩
+    exact ⟨by simp, fun v hv => absurd hv (Nat.not_lt_zero _), [], by simp, by simp⟩
   | some ep =>
     have heplt := hio.entryLt ep hent
     have hepLive := hio.al.live ep heplt
@@ -220,7 +223,7 @@ theorem searchCore_exact (hio : IO cfg s) (k : Nat) (hcover : s.next ≤ max cfg
         simp only [List.filterMap_cons, hx, Option.map_some, List.map_cons, h1, h2]
         rw [ih (fun it hit => hm it (List.mem_cons_of_mem _ hit))]
     rw [hmap _ (fun it hit => List.mem_reverse.mp hit)] at hr
-    refine ⟨?_, ?_⟩
+    refine ⟨?_, ?_, ?_⟩
     · rw [hr, List.length_map, List.length_reverse]; exact hdlen
     · intro v hv
       obtain ⟨it, hit, hvid⟩ := hallv v hv
@@ -239,6 +242,43 @@ theorem searchCore_exact (hio : IO cfg s) (k : Nat) (hcover : s.next ≤ max cfg
         show y.score ≤ dist q (s.vecOf v)
         rw [← hsc]
         exact hdom y hy' it hout
+    · obtain ⟨rest, hp, hdom⟩ := hbest
+      refine ⟨rest.map (·.score), ?_, ?_⟩
+      · -- the distance row is the score list of the beam's items, up to order
+        have hvids : ((Pmax.toList n).map (·.vid)).Perm (List.range s.next) := by
+          refine (List.perm_ext_iff_of_nodup hcomp.res.nodup List.nodup_range).mpr ?_
+          intro a
+          constructor
+          · intro ha
+            obtain ⟨it, hit, rfl⟩ := List.mem_map.mp ha
+            exact List.mem_range.mpr (hcomp.res.items it hit).2.2
+          · intro ha
+            obtain ⟨it, hit, hvid⟩ := hallv a (List.mem_range.mp ha)
+            exact List.mem_map.mpr ⟨it, hit, hvid⟩
+        have hrow : ((Pmax.toList n).map (·.score)).Perm ((List.range s.next).map (fun v => dist q (s.vecOf v))) := by
+          have h1 : (Pmax.toList n).map (·.score) =
+              ((Pmax.toList n).map (·.vid)).map (fun v => dist q (s.vecOf v)) := by
+            rw [List.map_map]
+            apply List.map_congr_left
+            intro it hit
+            exact (hcomp.res.items it hit).1
+          rw [h1]
+          exact hvids.map _
+        have hrs : (r.map (·.score)).Perm ((Pmax.toList sel).map (·.score)) := by
+          rw [hr, List.map_map]
+          have : ((fun h : Hit => h.score) ∘ fun it : Item => (⟨s.idOf it.vid, s.mdOf it.vid, it.score⟩ : Hit)) =
+              fun it => it.score := rfl
+          rw [this]
+          exact ((List.reverse_perm _).trans hperm).map _
+        refine hrow.symm.trans ?_
+        refine (hp.map (·.score)).trans ?_
+        rw [List.map_append]
+        exact List.Perm.append_right _ hrs.symm
+      · intro y hy x hx
+        rw [hr, List.map_map] at hy
+        obtain ⟨it, hit, rfl⟩ := List.mem_map.mp hy
+        obtain ⟨jt, hjt, rfl⟩ := List.mem_map.mp hx
+        exact hdom it (hperm.mem_iff.mp (List.mem_reverse.mp hit)) jt hjt
 
 include hmin hmax in
 /-- **C07 (exactness).** -/
@@ -247,17 +287,29 @@ theorem search_exact (hio : IO cfg s) (k : Nat) (hcover : s.next ≤ max cfg.ef 
     r.length = min k s.next ∧
     (∀ v, v < s.next →
       (∃ h ∈ r, h.id = s.idOf v ∧ h.score = dist q (s.vecOf v)) ∨
-      (∀ h ∈ r, h.score ≤ dist q (s.vecOf v))) := by
+      (∀ h ∈ r, h.score ≤ dist q (s.vecOf v))) ∧
+    (∃ rest, ((List.range s.next).map (fun v => dist q (s.vecOf v))).Perm (r.map (·.score) ++ rest) ∧
+      ∀ y ∈ r.map (·.score), ∀ x ∈ rest, y ≤ x) := by
   intro r
   have hck : clampK s k = if 0 < s.next ∧ s.next < k then s.next else k := by
     unfold clampK; rw [hio.idsLen]
   have hcover' : s.next ≤ max cfg.ef (clampK s k) := by
     rw [hck]; split <;> omega
-  obtain ⟨h1, h2⟩ := searchCore_exact (dist := dist) cfg hmin hmax s q hio (clampK s k) hcover'
-  refine ⟨?_, h2⟩
+  obtain ⟨h1, h2, h3⟩ := searchCore_exact (dist := dist) cfg hmin hmax s q hio (clampK s k) hcover'
+  refine ⟨?_, h2, h3⟩
   show (searchCore Pmin Pmax dist cfg s q (clampK s k)).length = min k s.next
   rw [h1, hck]
   split <;> omega
+
+include hmin hmax in
+/-- **C07 (exactness, against the brute-force ranking).** The score sequence of the answer is
+the ascending sort of the distances from the query to all stored items, cut at `k`. -/
+theorem search_scores_eq_bruteforce (hio : IO cfg s) (hinv : Inv s) (k : Nat) (hcover : s.next ≤ max cfg.ef k) :
+    (search Pmin Pmax dist cfg s q k).map (·.score) =
+      Exact.exactTopK k ((List.range s.next).map (fun v => dist q (s.vecOf v))) := by
+  obtain ⟨h1, _, rest, hp, hd⟩ := search_exact (dist := dist) cfg hmin hmax s q hio k hcover
+  have hsorted := (search_sound (dist := dist) cfg hmin hmax s q hinv k).2.1
+  exact Exact.topk_of_best k _ _ rest hsorted hp hd (by simp [h1])
 
 end
 end Anndb
